@@ -194,9 +194,10 @@ static gboolean deliver_due (void)
 
 /* ------------------------------------------------------------------ agents */
 #define MAXA 4
-typedef struct { NiceAgent *agent; int idx; guint64 rx_bytes[8][4]; guint rx_msgs[8][4]; } SimAgent;
+typedef struct { NiceAgent *agent; int idx; guint64 rx_bytes[8][4]; guint rx_msgs[8][4]; guint64 txn[8][4], rxn[8][4]; guint32 txh[8][4], rxh[8][4]; } SimAgent;
+static guint32 roll (guint32 h, const guint8 *d, gsize n) { for (gsize i = 0; i < n; i++) h = h * 16777619u ^ d[i]; return h; }
 static SimAgent A[MAXA]; static int nagents; static GMainContext *ctx;
-static guint dispatch_count;
+static guint dispatch_count, sleep_count;
 
 static const char *stname (guint s) { static const char *n[] = { "DISCONNECTED", "GATHERING", "CONNECTING", "CONNECTED", "READY", "FAILED" }; return s < 6 ? n[s] : "?"; }
 static void cand_s (NiceCandidate *c, char *o)
@@ -215,7 +216,8 @@ static gchar *last_sdp[MAXA];
 static void cb_closed (GObject *o, GAsyncResult *res, gpointer u) { SimAgent *sa = u; T ("sig %d closed", sa->idx); }
 static void cb_removed (NiceAgent *ag, guint *ids, gpointer u) { SimAgent *sa = u; T ("sig %d streams-removed", sa->idx); for (; *ids; ids++) fprintf (hc_out, " %u", *ids); }
 static void cb_recv (NiceAgent *ag, guint s, guint c, guint len, gchar *buf, gpointer u)
-{ SimAgent *sa = u; unsigned h = 5381; for (guint i = 0; i < len; i++) h = (h * 33 + (guint8) buf[i]) & 0xffffff; T ("rx %d %u %u %u %u", sa->idx, s, c, len, h); }
+{ SimAgent *sa = u; unsigned h = 5381; for (guint i = 0; i < len; i++) h = (h * 33 + (guint8) buf[i]) & 0xffffff; T ("rx %d %u %u %u %u", sa->idx, s, c, len, h);
+  if (s < 8 && c < 4) { sa->rxh[s][c] = roll (sa->rxh[s][c], (guint8 *) buf, len); sa->rxn[s][c] += len; } }
 
 static void digest (int i)
 {
@@ -253,7 +255,7 @@ static void run_for (long ms)
     if (timeout == 0) { continue; }
     if (timeout > 0) { gint64 t = vnow_us + (gint64) timeout * 1000; if (t < nxt) nxt = t; }
     if (nxt > end) { vnow_us = end; pump (); break; }
-    if (nxt > vnow_us) vnow_us = nxt;
+    if (nxt > vnow_us) { vnow_us = nxt; sleep_count++; }
   }
 }
 
@@ -427,7 +429,7 @@ static void do_op (char *op)
   else if (!strcmp (a[0], "gather")) { gboolean r = nice_agent_gather_candidates (A[I (1)].agent, I (2)); T ("api %d gather %d =%d", I (1), I (2), r); }
   else if (!strcmp (a[0], "creds")) copy_creds (I (1), I (2), I (3));
   else if (!strcmp (a[0], "cands")) copy_cands (I (1), I (2), I (3), I (4), n > 5 ? I (5) : -1);
-  else if (!strcmp (a[0], "run")) { guint d0 = dispatch_count; run_for (atol (a[1])); if (n > 2) T ("stat run %s dispatches=%u", a[1], dispatch_count - d0); }
+  else if (!strcmp (a[0], "run")) { guint d0 = dispatch_count, s0 = sleep_count; run_for (atol (a[1])); if (n > 2) T ("stat run %s sleeps=%u dispatches=%u", a[1], sleep_count - s0, dispatch_count - d0); }
   else if (!strcmp (a[0], "net")) { p_drop = atof (a[1]); p_dup = atof (a[2]); d_min_us = atol (a[3]) * 1000; d_max_us = atol (a[4]) * 1000; if (n > 5) max_consec_loss = I (5); }
   else if (!strcmp (a[0], "hole")) { /* hole,ipA,ipB,on|off  (directional) */ char k[200]; sprintf (k, "%s>%s", a[1], a[2]); if (!strcmp (a[3], "on")) g_hash_table_insert (blackhole, g_strdup (k), GINT_TO_POINTER (1)); else g_hash_table_remove (blackhole, k); T ("net hole %s %s", k, a[3]); }
   else if (!strcmp (a[0], "server")) { Server *sv2 = &servers[nservers++]; sv2->addr = mkaddr (a[1], I (2)); strncpy (sv2->mode, a[3], 31); sv2->count = 0; T ("net server %s:%s %s", a[1], a[2], a[3]); }
@@ -454,6 +456,25 @@ static void do_op (char *op)
     GOutputVector ov = { d, len }; NiceOutputMessage om = { &ov, 1 }; GError *ge = NULL;
     gint r = nice_agent_send_messages_nonblocking (A[I (1)].agent, I (2), I (3), &om, 1, NULL, &ge); if (r == 1) r = len;
     T ("api %d send %d %d %u %u err=%d =%d", I (1), I (2), I (3), len, h, ge ? ge->code : -1, r); g_clear_error (&ge); g_free (d); }
+  else if (!strcmp (a[0], "sendv")) { /* sendv,i,s,c,len,seed,layoutseed[,stunlike] : one message scattered over 1..8 buffers (zero-length ones included), counted or NULL-terminated vector */
+    guint len = I (4); guint8 *d = g_malloc (len + 1); unsigned h = 5381; for (guint k = 0; k < len; k++) d[k] = (I (5) * 31 + k * 7 + (k >> 8)) & 0xff;
+    if (n > 7 && !strcmp (a[7], "stunlike") && len >= 20) { d[0] = 0; d[1] = 1; d[2] = (len - 20) >> 8; d[3] = (len - 20) & 0xff; d[4] = 0x21; d[5] = 0x12; d[6] = 0xa4; d[7] = 0x42; }
+    for (guint k = 0; k < len; k++) h = (h * 33 + d[k]) & 0xffffff;
+    guint64 ls = (guint64) atol (a[6]) * 2654435761ULL + 12345; guint nb = 1 + (ls >> 8) % 8; int nullterm = (ls >> 20) & 1; GOutputVector ov[10]; guint8 *copies[10]; gsize off = 0;
+    for (guint b = 0; b < nb; b++) { ls = ls * 6364136223846793005ULL + 1442695040888963407ULL; gsize rem = len - off; gsize sz = b == nb - 1 ? rem : ((ls >> 33) % 4 == 0 ? 0 : (ls >> 35) % (rem + 1));
+      if (nullterm && sz == 0 && b != nb - 1) sz = rem ? 1 : 0;
+      copies[b] = g_malloc (sz ? sz : 1); memcpy (copies[b], d + off, sz); ov[b].buffer = copies[b]; ov[b].size = sz; off += sz; }   /* exactly sized heap copies: an over-read is an ASan report */
+    ov[nb].buffer = NULL; ov[nb].size = 0;
+    NiceOutputMessage om = { ov, nullterm ? -1 : (gint) nb }; GError *ge = NULL; int i = I (1);
+    gint r = nice_agent_send_messages_nonblocking (A[i].agent, I (2), I (3), &om, 1, NULL, &ge);
+    T ("api %d send %d %d %u %u nb=%u%s err=%d =%d", i, I (2), I (3), len, h, nb, nullterm ? "z" : "", ge ? ge->code : -1, r == 1 ? (gint) len : r);
+    if (r == 1 && I (2) < 8 && I (3) < 4) { A[i].txh[I (2)][I (3)] = roll (A[i].txh[I (2)][I (3)], d, len); A[i].txn[I (2)][I (3)] += len; }
+    g_clear_error (&ge); for (guint b = 0; b < nb; b++) g_free (copies[b]); g_free (d); }
+  else if (!strcmp (a[0], "sendstream")) { /* sendstream,i,s,c,len,seed : reliable mode, byte-stream semantics: nice_agent_send may accept a prefix */
+    guint len = I (4); guint8 *d = g_malloc (len + 1); for (guint k = 0; k < len; k++) d[k] = (I (5) * 131 + k * 13 + (k >> 7)) & 0xff; int i = I (1);
+    gint r = nice_agent_send (A[i].agent, I (2), I (3), len, (gchar *) d); T ("api %d sendstream %d %d %u %d =%d", i, I (2), I (3), len, I (5), r);
+    if (r > 0 && I (2) < 8 && I (3) < 4) { A[i].txh[I (2)][I (3)] = roll (A[i].txh[I (2)][I (3)], d, r); A[i].txn[I (2)][I (3)] += r; } g_free (d); }
+  else if (!strcmp (a[0], "streamhash")) { int i = I (1); guint s_ = I (2), c_ = I (3); if (s_ < 8 && c_ < 4) T ("strm %d %u %u tx=%" G_GUINT64_FORMAT ":%u rx=%" G_GUINT64_FORMAT ":%u", i, s_, c_, A[i].txn[s_][c_], A[i].txh[s_][c_], A[i].rxn[s_][c_], A[i].rxh[s_][c_]); }
   else if (!strcmp (a[0], "remove_stream")) { nice_agent_remove_stream (A[I (1)].agent, I (2)); T ("api %d remove_stream %d", I (1), I (2)); }
   else if (!strcmp (a[0], "consent_lost")) { gboolean r = nice_agent_consent_lost (A[I (1)].agent, I (2), I (3)); T ("api %d consent_lost %d %d =%d", I (1), I (2), I (3), r); }
   else if (!strcmp (a[0], "set_selected")) { /* force pair: first local, first remote candidate foundations */
